@@ -18,6 +18,7 @@ import (
 	"fmt"
 	"os"
 	"os/exec"
+	"path"
 	"path/filepath"
 	"sort"
 	"strings"
@@ -141,11 +142,6 @@ type Plan struct {
 	FaultErrno string `json:"fault_errno"`
 	FaultShort int    `json:"fault_short"`
 	Git        bool   `json:"git"`
-	// Steer restricts the workload of this plan so that histories get past the
-	// two defects that otherwise end almost half of all runs: bit 0 = skip a
-	// PackRefs while a loose symbolic ref exists under refs/, bit 1 = skip a
-	// conditional set (old != nil) on a name that has no loose file.
-	Steer int `json:"steer"`
 }
 
 var opKinds = []string{"set", "setsym", "cas", "remove", "get", "list", "count", "pack"}
@@ -244,9 +240,6 @@ func genPlan(r *core.Rand, tier string) any {
 		}
 		p.Ops = append(p.Ops, op)
 	}
-	if r.Chance(3, 5) {
-		p.Steer = 1 + r.Intn(3)
-	}
 	if r.Chance(1, 4) {
 		p.FaultClass = faultClasses[r.Intn(len(faultClasses))]
 		p.FaultNth = r.Intn(1 << 16)
@@ -257,7 +250,7 @@ func genPlan(r *core.Rand, tier string) any {
 		}
 	}
 	if tier == "thorough" {
-		p.Git = r.Chance(1, 16)
+		p.Git = r.Chance(1, 40)
 	}
 	return p
 }
@@ -456,6 +449,8 @@ type runner struct {
 	fired  bool
 	fclass string
 	nontrv bool
+	// divName: the name the last verify() divergence is about ("" = whole listing)
+	divName string
 }
 
 func (r *runner) firedCount() int {
@@ -490,6 +485,11 @@ func (r *runner) nameClass(name string, lines []string) string {
 	if k == "dir" && !r.hasUnder(name) {
 		return "stale-empty-dir"
 	}
+	for p := path.Dir(name); p != "." && p != "/"; p = path.Dir(p) {
+		if r.d.Lookup("/g/"+p) == "file" {
+			return "parent-is-file" // e.g. a/b while a is a loose file
+		}
+	}
 	if r.conflict(name) {
 		return "nesting-conflict"
 	}
@@ -514,6 +514,7 @@ func (r *runner) logf(format string, a ...any) {
 // verify compares listing and individual reads with the model. It returns
 // the first divergence ("" = none) and a message.
 func (r *runner) verify() (string, string) {
+	r.divName = ""
 	st := r.st
 	img := r.d
 	if r.faulty {
@@ -559,6 +560,7 @@ func (r *runner) verify() (string, string) {
 			}
 		}
 		g, ok := got[n]
+		r.divName = n
 		if !ok {
 			return "list-missing-name:" + vkind(want), fmt.Sprintf("listing lacks %s (model: %s)", n, want)
 		}
@@ -573,6 +575,7 @@ func (r *runner) verify() (string, string) {
 	sort.Strings(gnames)
 	for _, n := range gnames {
 		if _, ok := r.model[n]; !ok {
+			r.divName = n
 			return "list-extra-name:" + vkind(got[n]), fmt.Sprintf("listing has %s = %s, absent from the model", n, got[n])
 		}
 	}
@@ -586,9 +589,11 @@ func (r *runner) verify() (string, string) {
 			r.out.Probe("loose-shadows-packed")
 		}
 		if dv, msg := r.checkGet(st, n); dv != "" {
+			r.divName = n
 			return dv, msg
 		}
 	}
+	r.divName = ""
 	return "", ""
 }
 
@@ -617,15 +622,20 @@ func (r *runner) fail(kind, div, class, format string, a ...any) {
 }
 
 // readBack reads one name from a copy of the image (fault configuration only).
-func (r *runner) readBack(name string) (string, bool) {
+// state: "found", "absent" (ErrReferenceNotFound) or "error" (anything else:
+// no alternative is adopted, the verifier judges the state as it is).
+func (r *runner) readBack(name string) (string, string) {
 	img := r.d.Clone()
 	st := filesystem.NewStorage(img.FS("/g", "v"), cache.NewObjectLRUDefault())
 	defer st.Close()
 	ref, err := st.Reference(plumbing.ReferenceName(name))
-	if err != nil {
-		return "", false
+	switch {
+	case err == nil:
+		return refVal(ref), "found"
+	case errors.Is(err, plumbing.ErrReferenceNotFound):
+		return "", "absent"
 	}
-	return refVal(ref), true
+	return "", "error"
 }
 
 // step executes one operation; false = stop (a violation was recorded).
@@ -650,14 +660,6 @@ func (r *runner) step(i int, op Op) bool {
 		if inRefs(n) && isSym(v) && r.d.Lookup("/g/"+n) == "file" {
 			looseSym = true
 		}
-	}
-	if (kind == "pack" && looseSym && r.p.Steer&1 != 0) ||
-		(kind == "cas" && op.Old != "nil" && r.d.Lookup("/g/"+name) != "file" && r.p.Steer&2 != 0) {
-		r.logf("%d %s %s -> steered-away", i, kind, name)
-		if !r.dry {
-			r.out.Probe("steered-away-" + kind)
-		}
-		return true
 	}
 	skind := kind // operation kind as it appears in signatures
 	if skind == "setsym" {
@@ -846,7 +848,7 @@ func (r *runner) step(i int, op Op) bool {
 		case excused:
 			// no effect or full effect on the name it writes
 			if exp != "refuse" {
-				if v, ok := r.readBack(name); ok && v == newVal && (!has || cur != newVal) {
+				if v, state := r.readBack(name); state == "found" && v == newVal && (!has || cur != newVal) {
 					r.model[name] = newVal
 					r.out.Probe("fault-full-effect")
 				}
@@ -860,6 +862,12 @@ func (r *runner) step(i int, op Op) bool {
 			r.out.Probe("cas-absent-refused:" + errKind(err))
 		case conflict:
 			r.out.Probe("nesting-conflict-refused")
+		case pre == "stale-empty-dir":
+			// an empty directory left behind by a removed or packed nested name
+			// (a/b) occupies the path of a: the set fails cleanly and changes
+			// nothing, which the statement (reads and listings) allows, like the
+			// other directory/file conflicts
+			r.out.Probe("stale-empty-dir-blocks-set")
 		default:
 			r.fail("set", "unexpected-error:"+errKind(err), sigClass(pre), "%s(%s) failed on a name free of conflicts: %v", kind, name, err)
 			return false
@@ -880,7 +888,7 @@ func (r *runner) step(i int, op Op) bool {
 			}
 		case r.dry:
 		case excused:
-			if _, ok := r.readBack(name); !ok && has {
+			if _, state := r.readBack(name); state == "absent" && has {
 				delete(r.model, name)
 				r.out.Probe("fault-full-effect")
 			}
@@ -921,7 +929,11 @@ func (r *runner) step(i int, op Op) bool {
 	}
 	if dv, msg := r.verify(); dv != "" {
 		cls := pre
-		if kind != "pack" {
+		if r.divName != "" && (r.divName != name || kind == "pack" || kind == "list" || kind == "count") && !(kind == "pack" && pre == "symref-in-refs") {
+			// the divergence is about another name than the one operated on:
+			// classify by where that name lives now
+			cls = r.nameClass(r.divName, packedLines(r.d))
+		} else if kind != "pack" {
 			if a := anomaly(r.d, packedLines(r.d)); a != "" {
 				cls = a
 			}
@@ -963,7 +975,11 @@ func run(p *Plan, dry bool, fault *simfs.Fault, out *core.Outcome) map[simfs.OpC
 		dv, msg := r.verify()
 		r.faulty = saved
 		if dv != "" {
-			r.fail("init", dv, "initial-image", "initial image: %s", msg)
+			cls := "initial-image"
+			if r.divName != "" {
+				cls = r.nameClass(r.divName, packedLines(r.d))
+			}
+			r.fail("init", dv, cls, "initial image: %s", msg)
 		}
 	}
 	ops := p.Ops
@@ -1168,19 +1184,18 @@ func TestCheck(t *testing.T) {
 		Rule: "plan = initial image (HEAD symbolic/detached/absent, <=5 loose refs incl. symbolic refs/remotes/origin/HEAD and ORIG_HEAD, <=5 packed entries with git header or none, " +
 			"sorted or plan order, peel lines after tags, names shadowed by loose files) x history of 3-25 operations (set, symbolic set, check-and-set with old = current/stale hash/stale symbolic/nil, " +
 			"remove, get, list, count, pack) over 9 names with a/a/b nesting; 1 plan in 4 injects one disk fault (class drawn from write/create/rename/remove/open/truncate/read, ordinal reduced modulo the history's own count of that class); " +
-			"3 plans in 5 are steered past the two most frequent defects (skip PackRefs while a loose symbolic ref exists under refs/, and/or skip a conditional set on a name without loose file) so that the rest of the history is judged; " +
 			"non-trivial = the history contains PackRefs or a lookup answered from packed-refs; distinct = distinct plan",
 		Assumptions: []string{
 			"single client, no concurrency (C16 covers interleavings), no crash (C21)",
 			"HEAD is part of the listing (dotgit.Refs adds it); other pseudo-refs (ORIG_HEAD) are readable by name but not required in the listing, as with git for-each-ref",
 			"CheckAndSetReference with a non-nil old on a name that has no value may either succeed (memory.Storage) or be refused (filesystem); a refusal must change nothing",
-			"a set/remove on a name in directory/file conflict with an existing name (a vs a/b) may fail cleanly or behave like a map",
+			"a set/remove on a name in directory/file conflict with an existing name (a vs a/b) may fail cleanly or behave like a map; the same holds when only an empty directory left by a removed or packed nested name occupies the path (probe stale-empty-dir-blocks-set)",
 			"after an injected fault the failed call may have had no effect or its full effect on the name it writes; a call that returned nil is never excused",
 			"thorough tier: git for-each-ref/symbolic-ref/rev-parse (2.39) on the exported end image, objects absent (these commands do not need them)",
 		},
 		Real:    []string{"filesystem.Storage reference methods", "dotgit.SetRef/setRefRwfs/checkReferenceAndTruncate", "dotgit.Ref/Refs/packedRef/processLine/walkReferencesTree", "dotgit.RemoveRef/rewritePackedRefsWithoutRef", "dotgit.PackRefs/CountLooseRefs/openAndLockPackedRefs"},
 		Stub:    []string{"disk (simfs, POSIX personality, flock, one-shot faults)"},
-		Runs:    map[string]int{"quick": 150000, "thorough": 2000000},
+		Runs:    map[string]int{"quick": 150000, "thorough": 1500000},
 		NewPlan: func() any { return &Plan{} },
 		Gen:     genPlan,
 		Exec:    execPlan,
